@@ -5,7 +5,7 @@
 # Usage: tools/run_refactors.sh [group ...] -> refactors/RESULTS.txt
 set -u
 cd /verif
-declare -A CHECKS=( [A]="C01 C02 C03 C04 C05 C13 C18" [B]="C01 C03 C04 C05 C07 C13 C20" [C]="C12 C13" [D]="C16 C17 C18 C19" [E]="C08 C11 C13" [F]="C09 C10 C14 C15 C19" )
+declare -A CHECKS=( [G]="C01 C02 C03 C04 C07 C13 C20" [H]="C01 C03 C05 C06 C07 C08 C13 C20" [A]="C01 C02 C03 C04 C05 C13 C18" [B]="C01 C03 C04 C05 C07 C13 C20" [C]="C12 C13" [D]="C16 C17 C18 C19" [E]="C08 C11 C13" [F]="C09 C10 C14 C15 C19" )
 groups=${*:-$(ls refactors | grep '^[A-Z]$')}
 if [ -n "$(git -C /repo status --porcelain)" ]; then echo "/repo working tree is not clean"; exit 3; fi
 for g in $groups; do
